@@ -275,7 +275,10 @@ where
 {
     match (a, b) {
         (Val::Float(x), Val::Float(y)) => Val::Float(x.powf(y)),
-        (Val::Float(x), Val::Int(y)) => Val::Float(x.powi(y.to_i32().unwrap())),
+        (Val::Float(x), Val::Int(y)) => match y.to_i32() {
+            Some(exponent) => Val::Float(x.powi(exponent)),
+            None => Val::Error(exerr!("cannot convert {:?} to exponent of a float", y)),
+        },
         (Val::Int(x), Val::Int(y)) => match y.to_usize() {
             Some(exponent_) => match num::checked_pow(x, exponent_) {
                 Some(res) => Val::Int(res),
@@ -368,8 +371,10 @@ macro_rules! single_type_arith {
     };
 }
 
-single_type_arith!(rem, Int, |a, b| if b == I::zero() {
+single_type_arith!(rem, Int, |a: I, b: I| if b == I::zero() {
     Val::Error(ExError::new("% by zero"))
+} else if a == I::min_value() && b == -I::one() {
+    Val::Error(exerr!("overflow in {:?}%{:?}", a, b))
 } else {
     Val::Int(a % b)
 });
@@ -485,7 +490,6 @@ macro_rules! unary_name {
     }
 }
 
-unary_name!(abs, Float, Int);
 unary_name!(signum, Float, Int);
 unary_name!(sin, Float);
 unary_name!(round, Float);
@@ -543,8 +547,26 @@ unary_op!(
 );
 
 unary_op!(
+    abs,
+    (
+        |a: I| match I::zero().checked_sub(&a) {
+            Some(neg) => Val::Int(if a < I::zero() { neg } else { a }),
+            None => Val::Error(exerr!("overflow in abs({:?})", a)),
+        },
+        Int
+    ),
+    (|a: F| Val::Float(a.abs()), Float)
+);
+
+unary_op!(
     minus,
-    (|a: I| Val::Int(-a), Int),
+    (
+        |a: I| match I::zero().checked_sub(&a) {
+            Some(neg) => Val::Int(neg),
+            None => Val::Error(exerr!("overflow in -({:?})", a)),
+        },
+        Int
+    ),
     (|a: F| Val::Float(-a), Float),
     (
         |a: ArrayType<F>| Val::Array(a.iter().map(|ai| -(*ai)).collect()),
@@ -563,7 +585,10 @@ macro_rules! cast {
         {
             match v {
                 Val::$variant(x) => Val::$variant(x),
-                Val::$other_variant(x) => Val::$variant($T::from(x).unwrap()),
+                Val::$other_variant(x) => match $T::from(x) {
+                    Some(casted) => Val::$variant(casted),
+                    None => Val::Error(exerr!("cannot convert '{:?}'", x)),
+                },
                 Val::Bool(x) => Val::$variant(if x { $T::one() } else { $T::zero() }),
                 _ => Val::Error(exerr!("cannot convert '{:?}' to float", v)),
             }
